@@ -26,8 +26,15 @@ rows = sorted(last.values(), key=lambda r: (r[0], int(r[1][1:])))
 out = [f"Seeded changes vs. the registered checks ({label}); /verif at {verif}, /repo at {repo}.",
        "Each line: property seed -> verdict per check run (DETECTED = exit 1 with a VIOLATION line).", ""]
 det = 0
+neutral = 0
 for pid, seed, verdicts, lines in rows:
     ok = any(v.endswith(":DETECTED") for v in verdicts)
+    mp = f"/verif/seeded/{pid}/{seed}/meta.json"
+    if os.path.exists(mp) and json.load(open(mp)).get("neutralised"):
+        # a later fix: commit made this change harmless: it no longer breaks the property
+        neutral += 1
+        out.append(f"{pid} {seed}: not counted - no longer breaks the property on the current tree ({json.load(open(mp))['neutralised'][:160]}...)")
+        continue
     det += ok
     meta_p = f"/verif/seeded/{pid}/{seed}/meta.json"
     summary = ""
@@ -39,6 +46,6 @@ for pid, seed, verdicts, lines in rows:
         json.dump(meta, open(meta_p, "w"), indent=1)
     out.append(f"{pid} {seed}: {' '.join(verdicts)}   | {summary}")
 out.append("")
-out.append(f"{det} of {len(rows)} seeded changes reported by at least one of the checks run against them.")
+out.append(f"{det} of {len(rows) - neutral} seeded changes reported by at least one of the checks run against them ({neutral} not counted, see above).")
 open("/verif/seeded/RESULTS.txt", "w").write("\n".join(out) + "\n")
 print(out[-1])
